@@ -270,8 +270,8 @@ Definition agg_expr (fn : aggfn) (prefix : string) : expr :=
   | AgSum => Fn FSumIf [Id "agg_val"; Fn FIsNotNull [Id "agg_val"]]
   end.
 
-(* %f of float64(ns) for |ns| < 2^53 *)
-Definition durf_text (z : Z) : string := string_of_Z z ++ ".000000".
+(* FloatVal text of float64(ns) for |ns| < 2^53: the integer itself *)
+Definition durf_text (z : Z) : string := string_of_Z z.
 
 (* AggregatorPlanner.cmpVal: the text of sql.NewFloatVal(a.fCmpVal) *)
 Definition agg_cmp_text (g : aggregator) : result string :=
